@@ -124,7 +124,7 @@ class CFG:
             self._pending_handler_entries.pop()
             # Handlers: each raising statement may enter each handler.
             outs = []
-            handler_preds = [(n, 'exc') for n in entries]
+            handler_preds = [(n, 'exc0' if i == 0 else 'exc') for i, n in enumerate(entries)]
             # also: the try may be entered and raise before the first statement completes
             for h in s.handlers:
                 hn = self._new(h)
@@ -282,40 +282,61 @@ class CFG:
             self._cd = cd
         return self._cd
 
-    def guards(self, stmt, *, include_exc: bool = False) -> Set[Tuple[object, object]]:
-        """Transitive control dependences of a statement: {(branch node id, label)}.
+    def _edge_graph(self):
+        """Normal-flow graph with one virtual node per labelled branch edge.  Exception edges are dropped except
+        the one from the first statement of each try body (label 'exc0'), which stands for "an exception was
+        raised somewhere in this try"."""
+        if getattr(self, '_eg', None) is None:
+            H = nx.DiGraph()
+            H.add_nodes_from(self.g.nodes)
+            for a, b, data in self.g.edges(data=True):
+                labels = set(data.get('labels', {None}))
+                normal = labels - {'exc'}
+                if not normal:
+                    continue
+                for lab in normal:
+                    if lab in (True, False, 'loop', 'exit'):
+                        e = ('edge', a, lab)
+                        H.add_edge(a, e)
+                        H.add_edge(e, b)
+                    else:
+                        H.add_edge(a, b)
+            self._eg = H
+            self._eg_idom = nx.immediate_dominators(H, ENTRY)
+        return self._eg, self._eg_idom
 
-        Breadth-first from the statement; for each branch node only the labels found at the
-        smallest distance are kept, so that a dependence that wraps around a loop back edge
-        ("the test was false in an earlier iteration") does not cancel the one that holds in
-        the current iteration.
-        """
+    def guards(self, stmt, *, include_exc: bool = False) -> Set[Tuple[object, object]]:
+        """Branch edges that every normal-flow path from the function entry to the statement takes last:
+        {(branch node id, label)} = the labelled edges that dominate the statement.  For a branch node that
+        appears with both labels (possible around loops) only the closest one is kept."""
         start = stmt if isinstance(stmt, (int, str)) else self.nid(stmt)
-        dist: Dict[object, int] = {}
+        _H, idom = self._edge_graph()
         out: Set[Tuple[object, object]] = set()
-        frontier = [start]
-        seen = {start}
-        d = 0
-        while frontier:
-            d += 1
-            nxt = []
-            found: Dict[object, Set] = {}
-            for n in frontier:
-                for (b, lab) in self.control_deps.get(n, ()):
-                    if lab == 'exc' and not include_exc:
-                        continue
-                    if b in dist and dist[b] < d:
-                        continue
-                    found.setdefault(b, set()).add(lab)
-            for b, labs in found.items():
-                dist[b] = d
-                for lab in labs:
-                    out.add((b, lab))
-                if b not in seen:
-                    seen.add(b)
-                    nxt.append(b)
-            frontier = nxt
+        seen_nodes = set()
+        cur = start
+        n = 0
+        while cur in idom and idom[cur] != cur and n < 100000:
+            cur = idom[cur]
+            n += 1
+            if isinstance(cur, tuple) and cur and cur[0] == 'edge':
+                if cur[1] not in seen_nodes:
+                    seen_nodes.add(cur[1])
+                    out.add((cur[1], cur[2]))
         return out
+
+    def guard_literals_within(self, stmt, within) -> Set[Tuple[str, bool]]:
+        """guard_literals restricted to branch statements nested inside the AST node `within`."""
+        inside = {id(n) for n in ast.walk(within)}
+        lits: Set[Tuple[str, bool]] = set()
+        for b, lab in self.guards(stmt):
+            s = self.stmt.get(b)
+            if not isinstance(s, (ast.If, ast.While)) or id(s) not in inside or s is within:
+                continue
+            if lab not in (True, False, 'loop', 'exit'):
+                continue
+            for atom, t in conj_atoms(s.test, lab in (True, 'loop')):
+                lits.add((src(atom), t))
+        return lits
 
     def guard_literals(self, stmt) -> Set[Tuple[str, bool]]:
         """Conditions known to hold on reaching stmt: {(atom source text, truth)}.
